@@ -125,6 +125,7 @@ func init() {
 		x.Comment("store/store.go (*Store).fsmSnapshot, incremental branch: staging-related steps in source order")
 		var steps []string
 		errBranchCloses, errBranchReturns := false, false
+		closeFound, closeSetsFull := false, false
 		found := false
 		if fd := x.Func("store", "Store", "fsmSnapshot"); fd != nil {
 			ast.Inspect(fd.Body, func(n ast.Node) bool {
@@ -138,6 +139,16 @@ func init() {
 				}
 				found = true
 				for _, st := range els.List {
+					switch s := st.(type) {
+					case *ast.IfStmt:
+						if s.Init == nil {
+							if u, ok := s.Cond.(*ast.UnaryExpr); ok && u.Op == token.NOT {
+								if c, ok := u.X.(*ast.CallExpr); ok {
+									steps = append(steps, "if-not "+x.Src(c.Fun))
+								}
+							}
+						}
+					}
 					switch s := st.(type) {
 					case *ast.DeferStmt:
 						steps = append(steps, "defer "+x.Src(s.Call.Fun))
@@ -153,6 +164,14 @@ func init() {
 								if c, ok := a.Rhs[0].(*ast.CallExpr); ok {
 									name := x.Src(c.Fun)
 									steps = append(steps, "if-err "+name)
+									if name == "walWriter.Close" {
+										closeFound = true
+										for _, c2 := range x.Calls(s.Body, "SetDueNext") {
+											if len(c2.Args) == 1 && x.Src(c2.Args[0]) == "snapshot.Full" {
+												closeSetsFull = true
+											}
+										}
+									}
 									if name == "s.checkpointer.Checkpoint" {
 										if len(c.Args) > 0 {
 											steps = append(steps, "arg "+x.Src(c.Args[0]))
@@ -179,5 +198,6 @@ func init() {
 		x.DefStrings("incSteps", steps)
 		x.DefOptBool("incErrBranchClosesSegment", errBranchCloses, found)
 		x.DefOptBool("incErrBranchReturnsErr", errBranchReturns, found)
+		x.DefOptBool("incCloseErrRequestsFull", closeSetsFull, closeFound)
 	})
 }
